@@ -20,7 +20,7 @@ def main():
     dirs = [a for a in args if not a.startswith('--') and a != tier] or sorted(glob.glob('/verif/seeded/*/'))
     results = []
     for d in dirs:
-        d = d.rstrip('/')
+        d = os.path.abspath(d.rstrip('/'))
         meta = json.load(open(os.path.join(d, 'meta.json')))
         prop = meta['property']
         patch = os.path.join(d, 'patch.diff')
